@@ -6,7 +6,7 @@ from ..ref import P, L, to32, le
 REQUIRED = ['ep:mul', 'ep:mulbase', 'ep:table16', 'ep:table32', 'ep:table64', 'ep:table128', 'ep:table256', 'ep:tableconv',
             'ep:mulclamped', 'ep:mulbaseclamped', 'ep:dsm', 'ep:msm', 'ep:vmsm', 'ep:omsm', 'ep:precomp', 'ep:ladder',
             'ep:mulbits', 'ep:rs', 'n=0', 'n=1', 'n>=190', 'none-input', 'none-special-scalar', 'zero-scalar', 'unreduced', 'torsion-point', 'digits:radix16',
-            'digits:radix2w', 'digits:naf', 'carry63', 'nafstraddle']
+            'digits:radix2w', 'digits:naf', 'carry63', 'nafstraddle', 'scalars:all-zero', 'scalars:all-short']
 
 M255 = vals.M255
 
@@ -171,6 +171,10 @@ def multi(ctx, pool, sizes, reps=1):
                 variants += [([0] * n, ['scalars:all-zero']), ([1] * n, ['scalars:all-one']), ([L - 1] * n, ['scalars:all-max']),
                              ([0] * (n - 1) + [rng.choice([1, 8, L - 1])], ['scalars:single']),
                              ([rng.choice([1, 1 << 252])] + [0] * (n - 1), ['scalars:single'])]
+                # every scalar short and of the same length, top window all ones (the longest scalar decides how many digit
+                # columns are swept; the carry of the signed recoding needs one more)
+                for b in rng.sample([5, 6, 7, 8, 11, 12, 13, 14, 20, 62, 63, 64, 125, 128, 250], 3):
+                    variants.append(([(1 << b) - 1 - rng.randrange(4) for _ in range(n)], ['scalars:all-short']))
             for ss, scl in variants:
                 _multi_one(ctx, rng, n, reps, ps, ss, scl)
 
